@@ -50,7 +50,7 @@ class ParseUnit(Unit):
         return spec_parse.kani_module(prog, extra=extra)
     def kani_harnesses(self, ctx, prog):
         hs = []
-        if ctx.tier == 'thorough' and spec_parse.max_len(prog) <= 7 and 'overlap' not in prog.tags:
+        if ctx.tier == 'thorough' and spec_parse.max_len(prog) <= 7 and 'overlap' not in prog.tags and 'random' not in prog.tags:
             hs.append(('twin_from_str', 'from_str'))
         if ctx.pid == 'C12' and prog is self._first:
             hs += [('twin_eq_ignore_ascii_case', 'eq_ignore_ascii_case'), ('twin_unicode_lookalikes', 'eq_ignore_ascii_case')]
